@@ -156,5 +156,20 @@ _ADDED = {
     "C18": " Further: transport error classes (terminal vs retryable, exact attempt counts), overlapping uploads of hedged attempts (6 MiB bodies held back by the server), and over bufconn a tap handle with a load limiting policy.",
     "C19": " HTTP scenarios include retries rejected by an inner breaker or rate limiter, request bodies whose rewind fails, outages, hedges with custom cancel conditions answered simultaneously, and hand-written request contexts.",
 }
+# Rounds 14-16 (DESIGN.md section 12.6)
+_ADDED2 = {
+    "C04": " While the breaker is open the injected clock may read earlier than when it opened (a wall clock set back).",
+    "C05": " Max waits include 'for ever' (the largest duration and just below).",
+    "C08": " Further: a full no-wait bulkhead entered with a done context, and HTTP attempts whose request must observe a Timeout firing or a hedge abandoning it whatever the caller's contexts carry.",
+    "C09": " Further tests: the all-attempts-finished path over several retry rounds and with a retry policy inside every attempt; attempts failing on their own with a cancellation-looking error.",
+    "C10": " Error types that cannot be compared with == are classified through the fallback carrier of the C12 harness.",
+    "C11": " The Executor may be given a context twice (the later one counts) and a cache key may be replaced on the builder.",
+    "C12": " Targets and outcomes of error types that cannot be compared with == (slice- and map-based errors with an Is method).",
+    "C15": " Cancel may be called twice in a row or from two goroutines; an execution that stops making progress is a violation.",
+    "C16": " The hedged-retry test also requires one policy OnFailure event per result the handle predicate called a failure, with a slow abort predicate between the policy's steps; a Timeout's listener is checked when the caller cancelled first; a limiter wait cancelled after an earlier real refusal must stay silent.",
+    "C17": " Further tests: IsHedge across retries inside a hedged branch; flags and counters in the listeners of policies inside a hedge.",
+    "C18": " Further: attempts whose request must be abandoned when a Timeout fires or the hedge policy drops the loser, for every kind of caller context.",
+}
+_ADDED = {k: _ADDED.get(k, "") + _ADDED2.get(k, "") for k in set(_ADDED) | set(_ADDED2)}
 for _k, _v in _ADDED.items():
     META[_k]["text"] = META[_k]["text"] + _v
